@@ -865,7 +865,7 @@ LEVEL_TEXT = {
     "C03": "Exploration: direct invariant check (threshold, known triple, line and token ranges, ordering, Copyright shape) on every result of seeded workloads at nine thresholds from 0.01 to 1.0, including hostile bytes and hyphen/blank-line layouts.",
     "C04": "Exploration across processes: the same seeded queries are answered by 8 separately started processes (different map-iteration seeds) in 8 corpus/trace configurations, three times each with other calls in between; results are compared bit for bit in returned order. Nondeterminism that needs a particular map order is only seen if some process draws it - hence several processes, and still only 'held on what was observed'.",
     "C05": "Exploration (metamorphic): presentation transformations and their compositions are applied to license-bearing texts; results must agree exactly. The transformation space is unbounded.",
-    "C06": "Exploration (metamorphic) with nine recorded findings handled by token-level signatures; everything outside the signatures is reported.",
+    "C06": "Exploration (metamorphic) with five recorded findings (KF-C06-1..5) handled by token-level signatures; everything outside the signatures is reported.",
     "C07": "Exploration (metamorphic over six placements per text); one recorded finding (clamp at token 0) handled by a subset-relation signature.",
     "C08": "Fault enumeration: for each selected input EVERY pad width 0..2056 and EVERY reader-failure offset 0..len(input) (two delivery styles) is executed, plus nine fragmenting readers; the enumeration is complete for those inputs (exhaustive=true), the choice of inputs is seeded.",
     "C09": "Exploration of schedules: the Go race detector observes repeated concurrent storms (fresh classifier per storm, several processes) and every concurrent result is compared with the sequential one. The race detector only sees interleavings that occur; a clean run is not a proof of race freedom.",
